@@ -257,6 +257,27 @@ pub fn check_bytes(input: &[u8]) -> (Option<(String, String)>, u8) {
     if peak > bound {
         return (Some(("decode-memory".into(), format!("decode of {} bytes allocated a peak of {peak} bytes (largest single request {maxreq}); bound {bound}", input.len()))), 2);
     }
+    // the same bytes through the other decoding entry points of the codec: no panic, and the same verdict
+    {
+        use scale::{DecodeAll, DecodeLimit};
+        let other = catch(std::panic::AssertUnwindSafe(|| {
+            let a = PortableRegistry::decode_with_depth_limit(64, &mut &input[..]).ok();
+            let b = PortableRegistry::decode_all(&mut &input[..]).is_ok();
+            let c = PortableRegistry::decode(&mut scale::IoReader(&input[..])).ok();
+            (a, b, c)
+        }));
+        match other {
+            Err(p) => return (Some(("decode-panic".into(), format!("decode through decode_with_depth_limit / decode_all / IoReader panicked: {p}"))), 2),
+            Ok((a, b, c)) => {
+                if a.as_ref() != r.as_ref().ok() || c.as_ref() != r.as_ref().ok() {
+                    return (Some(("entry-points-disagree".into(), format!("decode gives {}, decode_with_depth_limit(64) {}, decode from an IoReader {} on the same bytes", if r.is_ok() { "Ok" } else { "Err" }, if a.is_some() { "Ok" } else { "Err" }, if c.is_some() { "Ok" } else { "Err" }))), 1);
+                }
+                if b != (r.is_ok() && consumed == input.len()) {
+                    return (Some(("entry-points-disagree".into(), format!("decode_all is {} although decode {} and consumed {consumed} of {} bytes", if b { "Ok" } else { "Err" }, if r.is_ok() { "succeeds" } else { "fails" }, input.len()))), 1);
+                }
+            }
+        }
+    }
     match r {
         Err(_) => (None, 0),
         Ok(reg) => {
